@@ -1237,4 +1237,12 @@ example :
     evsOn 0 (ops.filter fun op => !onOther 0 op) = evsOn 0 ops := by
   refine ⟨⟨{ latest := maxU64 }, by decide, rfl, rfl, rfl⟩, by decide, by decide, by decide, by decide⟩
 
+/-- **skipUntil with a sub-second part.**  The observer compares `time.Unix(cas / 10^9, 0)` – whole seconds `e` – with the
+configured instant `S` s + `N` ns (`N < 10^9`): `e·10^9 < S·10^9 + N` holds exactly when `e < S + 1` for `N > 0` and when `e < S`
+for `N = 0`.  The model's whole-second `skipUntil` is therefore the ceiling of the configured instant (the driver applies it); a
+configuration layer that truncated the instant instead would deliver the events of second `S`. -/
+theorem skipUntil_subsecond_ceil (e S N : Nat) (hN : N < 1000000000) :
+    (e * 1000000000 < S * 1000000000 + N) ↔ e < S + (if 0 < N then 1 else 0) := by
+  split <;> omega
+
 end GoDcp.C03
